@@ -14,6 +14,7 @@ import (
 	"math"
 	"net/http"
 	"net/http/httptest"
+	"os"
 	"reflect"
 	"strings"
 	"time"
@@ -277,6 +278,12 @@ func (p *prepared) execute(q Req) (o obs, ok bool) {
 	if !ok {
 		return obs{}, false
 	}
+	req, err := http.ReadRequest(bufio.NewReader(strings.NewReader(raw)))
+	if err != nil {
+		// a rendering net/http does not accept is a harness matter, never an observation
+		fmt.Fprintf(os.Stderr, "C03 harness: request does not parse: %v\n%q\n", err, raw)
+		os.Exit(2)
+	}
 	defer func() {
 		if e := recover(); e != nil {
 			o = obs{Panic: fmt.Sprint(e)}
@@ -284,10 +291,6 @@ func (p *prepared) execute(q Req) (o obs, ok bool) {
 	}()
 	if p.err != "" {
 		return obs{Panic: "while building: " + p.err}, true
-	}
-	req, err := http.ReadRequest(bufio.NewReader(strings.NewReader(raw)))
-	if err != nil {
-		panic("harness: request does not parse: " + err.Error() + "\n" + raw)
 	}
 	switch p.level {
 	case "map":
